@@ -12,6 +12,18 @@ int wx_names(int id);
 int wx_call(int which);
 int wx_cursor(void);
 int wx_path_depth(void);
+/* A04: obligations of C04 (what is handed over); A06: obligations of C06 (under which XPath it is handed over: a diagnostic
+   raised while a label's text is parsed, or by the builder for a location / branchpoint, must select exactly that element).
+   The same scripts serve both properties; each check asserts its own obligations only. */
+#ifdef FOR_C06
+#define A04(c, m) ((void)0)
+#define A06(c, m) __CPROVER_assert(c, m)
+#else
+#define A04(c, m) __CPROVER_assert(c, m)
+#define A06(c, m) ((void)0)
+#endif
+#define PATH_ID(id, t, c) ((id) * 53 + (t) * 3 + (c))
+#define PATH3(t3) (PATH_ID(PATH_ID(PATH_ID(1, TAG_NTA, 1), TAG_TEMPLATE, 1), t3, 1))
 #define T_ELEMENT 1
 #define T_TEXT 3
 #define T_WS 14
@@ -71,22 +83,23 @@ static void transition_case(int nl, int nn, int wsall, int selfloop)
     wx_start(n_, TAG_TRANSITION, 0, 0);
     wx_name(ra, na); wx_name(rb, nb);
     int r = wx_call(0);
-    __CPROVER_assert(r == 1 && verif_exc == 0, "c04.reader.transition:a-well-formed-transition-is-read-without-an-exception");
+    A04(r == 1 && verif_exc == 0, "c04.reader.transition:a-well-formed-transition-is-read-without-an-exception");
     int expect = 2;
     for (int i = 0; i < 2; i++) if (i < nl && part_of_kind(k[i]) >= 0) expect++;
-    __CPROVER_assert(verif_nev == expect, "c04.reader.transition:one-edge-begin,-one-parse-per-label-of-a-known-kind,-one-edge-end,-nothing-else");
-    __CPROVER_assert(verif_ev_op[0] == EV_EDGE_BEGIN && verif_ev_a[0] == na && verif_ev_b[0] == nb, "c04.reader.transition:source-and-target-are-the-names-of-the-referenced-ids,-in-this-order");
-    __CPROVER_assert(verif_ev_c[0] == (ctl == 0 || ctl == LIT_TRUE), "c04.reader.transition:controllable-unless-the-attribute-says-otherwise");
-    __CPROVER_assert(verif_ev_d[0] == (act == 0 ? LIT_SKIP : act), "c04.reader.transition:the-action-attribute-is-handed-over");
+    A04(verif_nev == expect, "c04.reader.transition:one-edge-begin,-one-parse-per-label-of-a-known-kind,-one-edge-end,-nothing-else");
+    A04(verif_ev_op[0] == EV_EDGE_BEGIN && verif_ev_a[0] == na && verif_ev_b[0] == nb, "c04.reader.transition:source-and-target-are-the-names-of-the-referenced-ids,-in-this-order");
+    A04(verif_ev_c[0] == (ctl == 0 || ctl == LIT_TRUE), "c04.reader.transition:controllable-unless-the-attribute-says-otherwise");
+    A04(verif_ev_d[0] == (act == 0 ? LIT_SKIP : act), "c04.reader.transition:the-action-attribute-is-handed-over");
     int e = 1;
     for (int i = 0; i < 2; i++) {
         if (i < nl && part_of_kind(k[i]) >= 0) {
-            __CPROVER_assert(verif_ev_op[e] == EV_PARSE && verif_ev_a[e] == t[i] && verif_ev_b[e] == part_of_kind(k[i]), "c04.reader.transition:each-label's-own-text-is-parsed-with-the-grammar-entry-of-its-kind,-in-document-order");
+            A04(verif_ev_op[e] == EV_PARSE && verif_ev_a[e] == t[i] && verif_ev_b[e] == part_of_kind(k[i]), "c04.reader.transition:each-label's-own-text-is-parsed-with-the-grammar-entry-of-its-kind,-in-document-order");
+            A06(verif_ev_c[e] == 2000 + PATH_ID(PATH3(TAG_TRANSITION), TAG_LABEL, i + 1), "c06.reader.transition:a-label's-text-is-parsed-under-the-XPath-of-that-label-element-(/nta/template[1]/transition[1]/label[i])");
             e++;
         }
     }
-    __CPROVER_assert(verif_ev_op[e] == EV_EDGE_END && verif_ev_a[e] == na && verif_ev_b[e] == nb, "c04.reader.transition:the-edge-is-closed-after-its-labels");
-    __CPROVER_assert(wx_cursor() == after, "c04.reader.transition:exactly-this-transition-element-is-consumed");
+    A04(verif_ev_op[e] == EV_EDGE_END && verif_ev_a[e] == na && verif_ev_b[e] == nb, "c04.reader.transition:the-edge-is-closed-after-its-labels");
+    A04(wx_cursor() == after, "c04.reader.transition:exactly-this-transition-element-is-consumed");
     if (nl == 2 && k[0] == LIT_GUARD && k[1] == LIT_ASSIGNMENT) __CPROVER_assert(0, "reach:guard-and-assignment");
     if (nl == 0 && ctl == 70) __CPROVER_assert(0, "reach:uncontrollable");
 }
@@ -106,8 +119,8 @@ void h_c04_reader_init(void)
     wx_start(n_, TAG_INIT, 0, 0);
     wx_name(other, on); wx_name(ra, na);
     int r = wx_call(1);
-    __CPROVER_assert(r == 1 && verif_exc == 0 && verif_nev == 1 && verif_ev_op[0] == EV_INIT && verif_ev_a[0] == na, "c04.reader.init:the-initial-location-is-the-one-whose-id-the-init-element-references");
-    __CPROVER_assert(wx_cursor() == 1 && after == 2, "c04.reader.init:exactly-the-init-element-is-consumed");
+    A04(r == 1 && verif_exc == 0 && verif_nev == 1 && verif_ev_op[0] == EV_INIT && verif_ev_a[0] == na, "c04.reader.init:the-initial-location-is-the-one-whose-id-the-init-element-references");
+    A04(wx_cursor() == 1 && after == 2, "c04.reader.init:exactly-the-init-element-is-consumed");
     REACH;
 }
 /* known finding C04-KF1: the rate label written before the invariant label */
@@ -138,35 +151,37 @@ static void location_case(int has_name, int nl, int urg, int com, int wsall)
     if (dup) wx_name(id, 49);
     int r = wx_call(2);
     int name = has_name ? nm : 300 + id; /* anonymous locations are named "_" + id */
-    __CPROVER_assert(r == 1 && verif_exc == 0, "c04.reader.location:a-well-formed-location-is-read-without-an-uncaught-exception");
-    __CPROVER_assert(wx_names(id) == name, "c04.reader.location:the-id-is-remembered-as-referring-to-this-location's-name");
+    A04(r == 1 && verif_exc == 0, "c04.reader.location:a-well-formed-location-is-read-without-an-uncaught-exception");
+    A04(wx_names(id) == name, "c04.reader.location:the-id-is-remembered-as-referring-to-this-location's-name");
     /* expected events: a parse per invariant / rate label, (a warning for a repeated id), proc_location, then the flags */
     int e = 0, inv_ok = 0, rate_ok = 0, inv_at = -1, rate_at = -1;
     for (int i = 0; i < 2; i++) {
         if (i < nl && k[i] != LIT_OTHER_KIND) {
-            __CPROVER_assert(e < verif_nev && verif_ev_op[e] == EV_PARSE && verif_ev_a[e] == t[i] && verif_ev_b[e] == (k[i] == LIT_INVARIANT ? S_INVARIANT : S_EXPONENTIAL_RATE),
+            A04(e < verif_nev && verif_ev_op[e] == EV_PARSE && verif_ev_a[e] == t[i] && verif_ev_b[e] == (k[i] == LIT_INVARIANT ? S_INVARIANT : S_EXPONENTIAL_RATE),
                              "c04.reader.location:each-invariant/rate-label's-own-text-is-parsed-with-its-grammar-entry");
+            A06(verif_ev_c[e] == 2000 + PATH_ID(PATH3(TAG_LOCATION), TAG_LABEL, i + 1), "c06.reader.location:a-label's-text-is-parsed-under-the-XPath-of-that-label-element-(/nta/template[1]/location[1]/label[i])");
             int ok = !((pf >> (t[i] - 50)) & 1);
             if (k[i] == LIT_INVARIANT) { inv_ok = ok; inv_at = e; } else { rate_ok = ok; rate_at = e; }
             e++;
         }
     }
-    if (dup) { __CPROVER_assert(e < verif_nev && verif_ev_op[e] == EV_WARNING, "c04.reader.location:a-repeated-id-is-reported"); e++; }
-    __CPROVER_assert(e < verif_nev && verif_ev_op[e] == EV_LOCATION && verif_ev_a[e] == name, "c04.reader.location:the-location-is-handed-over-under-its-name-(or-the-id-derived-one)");
-    __CPROVER_assert(verif_ev_b[e] == inv_ok && verif_ev_c[e] == rate_ok, "c04.reader.location:invariant-/-rate-are-announced-exactly-when-such-a-label-was-parsed");
+    if (dup) { A04(e < verif_nev && verif_ev_op[e] == EV_WARNING, "c04.reader.location:a-repeated-id-is-reported"); e++; }
+    A04(e < verif_nev && verif_ev_op[e] == EV_LOCATION && verif_ev_a[e] == name, "c04.reader.location:the-location-is-handed-over-under-its-name-(or-the-id-derived-one)");
+    A04(verif_ev_b[e] == inv_ok && verif_ev_c[e] == rate_ok, "c04.reader.location:invariant-/-rate-are-announced-exactly-when-such-a-label-was-parsed");
+    A06(verif_ev_d[e] == 2000 + PATH3(TAG_LOCATION), "c06.reader.location:diagnostics-of-the-builder-about-this-location-are-attributed-to-the-location-element");
     /* the builder takes the rate from the top of the operand stack and the invariant from below it (c04_builder_location):
        when both were parsed, the invariant must have been parsed first */
-    __CPROVER_assert(!(inv_ok && rate_ok) || inv_at < rate_at, "c04.reader.location:invariant-and-rate-reach-the-builder-in-the-order-it-takes-them-(each-label-ends-up-in-its-own-field)");
+    A04(!(inv_ok && rate_ok) || inv_at < rate_at, "c04.reader.location:invariant-and-rate-reach-the-builder-in-the-order-it-takes-them-(each-label-ends-up-in-its-own-field)");
     e++;
     if (thr) {
-        __CPROVER_assert(e < verif_nev && verif_ev_op[e] == EV_ERROR && verif_nev == e + 1, "c04.reader.location:a-diagnostic-of-the-builder-is-recorded-and-the-flags-are-not-applied-to-a-rejected-location");
+        A04(e < verif_nev && verif_ev_op[e] == EV_ERROR && verif_nev == e + 1, "c04.reader.location:a-diagnostic-of-the-builder-is-recorded-and-the-flags-are-not-applied-to-a-rejected-location");
     } else {
-        if (com) { __CPROVER_assert(e < verif_nev && verif_ev_op[e] == EV_COMMIT && verif_ev_a[e] == name, "c04.reader.location:the-committed-flag-is-applied-to-this-location"); e++; }
-        if (urg) { __CPROVER_assert(e < verif_nev && verif_ev_op[e] == EV_URGENT && verif_ev_a[e] == name, "c04.reader.location:the-urgent-flag-is-applied-to-this-location"); e++; }
-        __CPROVER_assert(verif_nev == e, "c04.reader.location:nothing-else-is-handed-over");
+        if (com) { A04(e < verif_nev && verif_ev_op[e] == EV_COMMIT && verif_ev_a[e] == name, "c04.reader.location:the-committed-flag-is-applied-to-this-location"); e++; }
+        if (urg) { A04(e < verif_nev && verif_ev_op[e] == EV_URGENT && verif_ev_a[e] == name, "c04.reader.location:the-urgent-flag-is-applied-to-this-location"); e++; }
+        A04(verif_nev == e, "c04.reader.location:nothing-else-is-handed-over");
     }
     /* the reader stops right behind the <committed/> child if there is one, otherwise on the element that follows the location */
-    __CPROVER_assert(wx_cursor() == (com ? after_committed : after), "c04.reader.location:exactly-this-location-element-is-consumed");
+    A04(wx_cursor() == (com ? after_committed : after), "c04.reader.location:exactly-this-location-element-is-consumed");
     if (KF1_CLASS) __CPROVER_assert(0, "reach:rate-before-invariant");
     if (nl == 2 && k[0] == LIT_INVARIANT && k[1] == LIT_EXPONENTIALRATE) __CPROVER_assert(0, "reach:invariant-before-rate");
     if (!has_name && nl == 0) __CPROVER_assert(0, "reach:anonymous");
@@ -185,8 +200,9 @@ void h_c04_reader_branchpoint(void)
     wx_start(n_, TAG_BRANCHPOINT, 0, 0);
     if (dup) wx_name(id, 49);
     int r = wx_call(3);
-    __CPROVER_assert(r == 1 && verif_exc == 0 && wx_names(id) == 300 + id, "c04.reader.branchpoint:the-id-refers-to-the-branchpoint's-internal-name");
-    __CPROVER_assert(verif_nev == 1 + dup && verif_ev_op[dup] == EV_BRANCHPOINT && verif_ev_a[dup] == 300 + id && (!dup || verif_ev_op[0] == EV_WARNING), "c04.reader.branchpoint:one-branchpoint-is-handed-over");
-    __CPROVER_assert(wx_cursor() == 1 && after == 2, "c04.reader.branchpoint:exactly-the-branchpoint-element-is-consumed");
+    A04(r == 1 && verif_exc == 0 && wx_names(id) == 300 + id, "c04.reader.branchpoint:the-id-refers-to-the-branchpoint's-internal-name");
+    A04(verif_nev == 1 + dup && verif_ev_op[dup] == EV_BRANCHPOINT && verif_ev_a[dup] == 300 + id && (!dup || verif_ev_op[0] == EV_WARNING), "c04.reader.branchpoint:one-branchpoint-is-handed-over");
+    A04(wx_cursor() == 1 && after == 2, "c04.reader.branchpoint:exactly-the-branchpoint-element-is-consumed");
+    A06(verif_ev_d[dup] == 2000 + PATH3(TAG_BRANCHPOINT), "c06.reader.branchpoint:diagnostics-about-this-branchpoint-are-attributed-to-the-branchpoint-element");
     REACH;
 }
